@@ -830,21 +830,27 @@ def classify(ctx, run, trees, jobs, tag):
         keys.add(KEY_MACRO)
     if keys:
         return keys
-    # a library file named by --library=<file> was edited after the differing file was analysed last, and every differing finding
-    # is in a file that was served from the cache: the *contents* of library files are not part of the key (only their names)
+    # a library file named by --library=<file> was edited after the differing file was analysed last: the *contents* of library
+    # files are not part of the key (only their names).  Explains differing findings located in files served from the cache.
     libs = [x.split("=", 1)[1] for x in run["xopts"] if x.startswith("--library=")]
     hits = [f for f, (_, d, _) in run["model"].items() if d == "h"]
     diff = set(run["cached"]) ^ set(run["fresh"])
-    if libs and hits and all(l.split("|")[0] in hits for l in diff) and \
-            any(trees[j].get(lib) != tree.get(lib) for lib in libs for j in range(run["k"])):
-        return {KEY_LIBFILE}
-    # nothing in the key / mapping / replay explains it: does the difference come from the *.sN files?
+    explained = set()
+    if libs and hits and any(trees[j].get(lib) != tree.get(lib) for lib in libs for j in range(run["k"])):
+        explained = {l for l in diff if l.split("|")[0] in hits}
+        if explained:
+            keys.add(KEY_LIBFILE)
+    if diff and not (diff - explained):
+        return keys
+    # the rest: does it come from the *.sN files?  (same run without them / same history without them must give the fresh result)
+    def same_as_fresh(cached, rc):
+        return not ((set(cached) ^ set(run["fresh"])) - explained) and (bool(explained) or rc == run["rc_f"])
     nsum, rc2, cached2 = without_summaries(ctx, run)
-    if nsum and (cached2, rc2) == (run["fresh"], run["rc_f"]):
-        return {KEY_SUMM}
+    if nsum and same_as_fresh(cached2, rc2):
+        return keys | {KEY_SUMM}
     sh = shadow_history(ctx, trees, jobs, run["k"], tag, run["xopts"])
-    if sh[run["k"]] == (run["fresh"], run["rc_f"]):
-        return {KEY_SUMM}      # a result computed under the summaries of an earlier run is replayed from the cache
+    if sh[run["k"]] is not None and same_as_fresh(*sh[run["k"]]):
+        return keys | {KEY_SUMM}      # a result computed under the summaries of an earlier run is replayed from the cache
     return None
 
 
